@@ -1,10 +1,12 @@
 import Driver.Codec
+import Driver.SolverState
 namespace Driver
 open Tak
 
 /-- driver state: the Zobrist basis sent by the harness; per-module session state is added by the modules -/
 structure St where
   basis : Array W := Array.replicate 64 0#64
+  solvers : SolverSession := {}
 deriving Inhabited
 
 /-- a handler returns `none` when the op is not its own -/
